@@ -33,6 +33,9 @@ type rangeClaim struct {
 	vals     []felt.Felt
 	nodes    []pnode
 	nilProof bool
+	// reprove (trie2 only): produces the node set of the honest range again, as the prover's Go objects (children typed,
+	// hashes cached by the trie that was hashed before) - what a verifier in the same process is handed
+	reprove func() any
 }
 
 func (c *rangeClaim) String() string {
@@ -159,6 +162,41 @@ func runRangeCase(r *ev.Run, c *rangeCase, hs *hasher, loc tally) {
 		default:
 			r.Violate(fmt.Sprintf("FALSE-range-claim-accepted %s tamper=%s", c.im.name, class),
 				detail(cl, map[string]any{"honest": honest.String(), "keying": keying, "nodes": cl.nodes}))
+		}
+		// the same altered claim against the prover's own node objects (not re-decoded): only for alterations of the
+		// claim itself, and only where the wire-decoded node set rejected it (what is accepted there is already reported)
+		if c.im.verifyRangeRaw == nil || honest.reprove == nil || cl.nilProof || err == nil || keying != keyClaimed ||
+			!(class == "entry-dropped" || class == "value-changed" || class == "neighbours-exchanged" || class == "absent-key-inserted" ||
+				class == "outside-entry-added" || class == "first-moved") {
+			return
+		}
+		raw := honest.reprove()
+		if raw == nil {
+			return
+		}
+		var more2 bool
+		var err2 error
+		first := fOf(cl.first)
+		ks, vs := make([]*felt.Felt, len(cl.keys)), make([]*felt.Felt, len(cl.keys))
+		for i := range cl.keys {
+			k, v := fOf(cl.keys[i]), cl.vals[i]
+			ks[i], vs[i] = &k, &v
+		}
+		p2, msg2 := ev.Guard(func() { more2, err2 = c.im.verifyRangeRaw(&root, &first, ks, vs, raw) })
+		loc["#evaluations"]++
+		loc["#range_tampered_produced_node_set"]++
+		switch {
+		case p2:
+			loc.add("range tamper " + class + " [produced node set]: VerifyRangeProof panics")
+			_ = msg2
+		case err2 != nil:
+			loc.add("range tamper " + class + " [produced node set]: rejected")
+		case isTrue:
+			loc.add("range tamper " + class + " [produced node set]: altered claim is still true, accepted (excluded)")
+		default:
+			_ = more2
+			r.Violate(fmt.Sprintf("FALSE-range-claim-accepted %s tamper=%s [produced node set, rejected when re-decoded]", c.im.name, class),
+				detail(cl, map[string]any{"honest": honest.String()}))
 		}
 	}
 	tamper := func(hc *rangeClaim) {
@@ -305,6 +343,13 @@ func runRangeCase(r *ev.Run, c *rangeCase, hs *hasher, loc tally) {
 				continue
 			}
 			hc.nodes = nodes
+			hc.reprove = func() any {
+				var raw any
+				if p, _ := ev.Guard(func() { _, raw, _ = h.proveRange(&ff, &lf) }); p {
+					return nil
+				}
+				return raw
+			}
 			kind := "first-present"
 			if !firstPresent {
 				kind = "first-absent"
